@@ -1,4 +1,5 @@
 """C07 — repetition arithmetic equals the unrolled sum."""
+import json
 from fractions import Fraction
 
 import exprs as E
@@ -62,6 +63,12 @@ def gen_case(rng):
             E.fun("f", E.sym("k")),
         ])
         seq = {"kind": kind, "sum": body, "prod": None, "num_terms_symbol": "k"}
+        if symbolic_count and rng.random() < 0.4:
+            # the placeholder bears the name of the count's own symbol (the usual `count: K`), the count being K itself or a
+            # compound expression in K: the formula is taken at the COUNT (K + 1, 2*K), not at K
+            seq["num_terms_symbol"] = "K"
+            seq["sum"] = E.subst_sym(body, "k", "K") if hasattr(E, "subst_sym") else json.loads(json.dumps(body).replace('["s", "k"]', '["s", "K"]'))
+            count = rng.choice([E.sym("K"), E.op("add", E.sym("K"), E.num(1)), E.op("mul", E.num(2), E.sym("K")), E.op("mul", E.sym("K"), E.sym("K"))])
     else:
         term = rng.choice([
             E.op("add", E.op("mul", E.sym("p"), E.sym("i")), E.num(1)),
